@@ -10,6 +10,9 @@ import time
 import z3
 
 
+RLIMIT_PER_MS = 1700
+
+
 def to_smt2(hyps, goal, axioms):
     s = z3.Solver()
     for a in axioms:
@@ -33,6 +36,69 @@ def _model_to_dict(m):
     return out
 
 
+# ---------------------------------------------------------------------------------------------------------------
+# premise selection (SInE-style): a proof rarely needs more than a few of the ~150 quantified hypotheses a path carries, and E-matching
+# is chaotic in their number.  Dropping hypotheses is always sound for `unsat`; a `sat` on a sliced problem means nothing and is ignored.
+def _symbols(e, memo):
+    out, stack, seen = set(), [e], set()
+    while stack:
+        x = stack.pop()
+        i = x.get_id()
+        if i in seen:
+            continue
+        seen.add(i)
+        if z3.is_quantifier(x):
+            stack.append(x.body())
+            continue
+        if z3.is_app(x):
+            d = x.decl()
+            if d.kind() == z3.Z3_OP_UNINTERPRETED:
+                out.add(d.name())
+            stack.extend(x.children())
+    return out
+
+
+def _has_quantifier(e):
+    stack, seen = [e], set()
+    while stack:
+        x = stack.pop()
+        i = x.get_id()
+        if i in seen:
+            continue
+        seen.add(i)
+        if z3.is_quantifier(x):
+            return True
+        stack.extend(x.children())
+    return False
+
+
+def select_premises(asserts, tol, depth):
+    """asserts: hypotheses followed by the negated goal (last).  Keeps every quantifier-free hypothesis and the quantified ones reachable
+    from the goal's symbols in `depth` rounds, a hypothesis being triggered only by its rarest symbols (within factor `tol`)."""
+    import collections
+    goal, hyps = asserts[-1], asserts[:-1]
+    S = [_symbols(h, None) for h in hyps]
+    Q = [_has_quantifier(h) for h in hyps]
+    occ = collections.Counter(s_ for ss in S for s_ in ss)
+    trig = []
+    for ss in S:
+        if not ss:
+            trig.append(set())
+            continue
+        m = min(occ[s_] for s_ in ss)
+        trig.append({s_ for s_ in ss if occ[s_] <= tol * m})
+    R = set(_symbols(goal, None))
+    keep = {i for i in range(len(hyps)) if not Q[i]}
+    for _ in range(depth):
+        new = [i for i in range(len(hyps)) if i not in keep and trig[i] & R]
+        if not new:
+            break
+        for i in new:
+            keep.add(i)
+            R |= S[i]
+    return [hyps[i] for i in sorted(keep)] + [goal], sum(Q), sum(1 for i in keep if Q[i])
+
+
 def solve_one(job):
     """job = (name, smt2 text, timeout_ms, use_cvc5).  Returns dict."""
     name, smt2, timeout_ms, use_cvc5 = job
@@ -41,16 +107,58 @@ def solve_one(job):
     # small portfolio: E-matching is sensitive to relevancy filtering (see DESIGN 3.4); stop at the first definite answer
     quantified = '(forall' in smt2 or '(exists' in smt2
     if quantified:
-        configs = [{'smt.relevancy': 0}, {}, {'smt.mbqi': True}, {'smt.relevancy': 0, 'smt.random_seed': 11}]
-        budget = [0.5, 0.15, 0.2, 0.15]
+        # E-matching is unstable across configurations (DESIGN 3.4): with relevancy filtering off some VCs are found in milliseconds and
+        # others diverge, and vice versa.  Iterative deepening over the configurations: short slices first, so a VC that any configuration
+        # proves quickly never waits for another configuration to time out.
+        base = [{'smt.relevancy': 0}, {}, {'smt.mbqi': True}, {'smt.relevancy': 0, 'smt.random_seed': 11}]
+        configs, budget = [], []
+        for frac in (0.03, 0.08, 0.14):
+            for c in base:
+                configs.append(c)
+                budget.append(frac)
     else:
         configs = [{}]
         budget = [1.0]
+    if quantified and smt2.count('(forall') >= 40:
+        try:
+            ctx0 = z3.Context()
+            s0 = z3.Solver(ctx=ctx0)
+            s0.from_string(smt2)
+            A = list(s0.assertions())
+            for (tol, depth) in ((1.0, 2), (2.0, 4)):
+                B, nq, nk = select_premises(A, tol, depth)
+                done = False
+                for cfg in ({'smt.mbqi': True}, {'smt.relevancy': 0}, {}):
+                    s1 = z3.Solver(ctx=ctx0)
+                    slice_ms = max(300, timeout_ms * 0.02)
+                    s1.set('rlimit', int(slice_ms * RLIMIT_PER_MS))
+                    s1.set('timeout', int(slice_ms * 8 + 2000))
+                    s1.set('auto_config', False)
+                    s1.set('smt.mbqi', False)
+                    for k, v in cfg.items():
+                        s1.set(k, v)
+                    s1.add(B)
+                    if s1.check() == z3.unsat:
+                        res['verdict'] = 'unsat'
+                        res['config'] = dict(cfg, premises='%d of %d quantified hypotheses (SInE tol %.1f depth %d)' % (nk, nq, tol, depth))
+                        res['slice'] = -1
+                        done = True
+                        break
+                if done:
+                    break
+        except Exception as e:  # pragma: no cover
+            res['reason'] = 'premise selection failed: %r' % (e,)
     for ci, cfg in enumerate(configs):
+        if res['verdict'] == 'unsat':
+            break
         try:
             ctx = z3.Context()
             s = z3.Solver(ctx=ctx)
-            s.set('timeout', int(max(1000, timeout_ms * budget[ci])))
+            # the budget is a deterministic resource limit (z3 'rlimit', about 1 700 units per millisecond on this machine when idle), so a
+            # verdict does not depend on how busy the machine is; the wall-clock timeout is only a safety net (8 x the nominal slice)
+            slice_ms = max(400, timeout_ms * budget[ci])
+            s.set('rlimit', int(slice_ms * RLIMIT_PER_MS))
+            s.set('timeout', int(slice_ms * 8 + 2000) if quantified else int(slice_ms * 2 + 500))   # nlsat checks the rlimit rarely
             s.set('auto_config', False)
             s.set('smt.mbqi', False)
             for k, v in cfg.items():
@@ -60,6 +168,7 @@ def solve_one(job):
             if r == z3.unsat:
                 res['verdict'] = 'unsat'
                 res['config'] = cfg
+                res['slice'] = ci
                 break
             elif r == z3.sat:
                 res['verdict'] = 'sat'
